@@ -1200,12 +1200,12 @@ def wl_words(run, rng, idx):
         W = A @ B @ A.inv() @ B.inv()
         hist = ["[", h1, h2, "]"]
     elif pattern == "conjugate":
-        h1, A = product(max(1, L // 3))
+        h1, A = product(min(4, max(1, L // 3)) if idx % 3 else max(1, L // 3))
         h2, B = product(2)
         W = A @ B @ A.inv()
         hist = [h1, h2, "conj"]
     else:
-        hist, A = product(max(1, L // 2))
+        hist, A = product(min(5, max(1, L // 2)) if idx % 3 else max(1, L // 2))
         W = A @ A.inv()
     case["word"] = hist
     run.note_class("words", n, pattern, min(L, 30) // 5, tuple(sorted(names)))
